@@ -417,7 +417,7 @@ func (e *Engine) Render(ctx context.Context, templateName string, data interface
 	ctx, execSpan := trace.StartSpan(ctx, "pug/execute")
 	execSpan.Annotate(nil, templateName)
 	start := time.Now()
-	err := templateInstance.ExecuteTemplate(ctx, result, templateName, convert(data), e.Trace)
+	err := templateInstance.ExecuteTemplate(ctx, result, templateName, convertData(data), e.Trace)
 	execSpan.End()
 	ctx, _ = tag.New(ctx, tag.Upsert(templateKey, templateName))
 	stats.Record(ctx, rt.M(time.Since(start).Nanoseconds()/1000000))
